@@ -29,6 +29,7 @@ type c20Server struct {
 	mode    string // up | refusing | http500 | silent
 	srv     *http.Server
 	reqs    int
+	slowOn  bool // requests carrying slow=1 hang until the client gives up
 }
 
 // v1 is longer than v2 (an in-place overwrite without truncation leaves a tail)
@@ -59,6 +60,12 @@ func (s *c20Server) serve(ln net.Listener) {
 		s.mu.Unlock()
 		if ref := r.URL.Query().Get("ref"); ref != "" {
 			content = ref // /inc.yml?ref=v1 and ?ref=v2 are two different remote files
+		}
+		s.mu.Lock()
+		slow := s.slowOn && r.URL.Query().Get("slow") == "1"
+		s.mu.Unlock()
+		if slow {
+			mode = "silent"
 		}
 		switch mode {
 		case "http500":
@@ -185,6 +192,7 @@ type c20Inv struct {
 	offline  bool
 	download bool
 	insecure bool
+	dry      bool // --dry / --status: nothing runs, and nothing may be approved on the way
 }
 
 func c20Invocations(tier string) []c20Inv {
@@ -198,6 +206,8 @@ func c20Invocations(tier string) []c20Inv {
 		{name: "run-expiry1h", flags: []string{"--expiry", "1h"}, insecure: true},
 		{name: "run-yes-expiry1h", flags: []string{"--expiry", "1h"}, yes: true, insecure: true},
 		{name: "run-no-insecure-flag", yes: true},
+		{name: "dry", flags: []string{"--dry"}, insecure: true, dry: true},
+		{name: "status", flags: []string{"--status"}, insecure: true, dry: true},
 	}
 	if tier == "thorough" {
 		base = append(base,
@@ -343,6 +353,17 @@ func c20Unit(tier string, optional bool) *Unit {
 						tag := inv.name + ":server=" + ns.mode
 						if c := c16Crash(se, rc); c != "" {
 							add(vlab.V("C20", c, inv.name, ctx), hist)
+							return
+						}
+						if inv.dry {
+							// read-only modes load the remote Taskfile like any other invocation: unapproved
+							// content ends them with 104, and they approve nothing (the next plain run tells)
+							if ns.mode == "up" && ns.content != ns.approved && rc != 104 {
+								add(vlab.V("C20", "declined_download_not_104", fmt.Sprintf("%s:got%d", inv.name, rc), "new or changed remote content was downloaded without approval; the invocation must end with 104: "+ctx), hist)
+							}
+							if ran != "" {
+								add(vlab.V("C20", "dry_run_executed_commands", inv.name, ctx), hist)
+							}
 							return
 						}
 						if !inv.insecure {
@@ -633,6 +654,74 @@ func c20SchemeUnit() *Unit {
 	}}
 }
 
+// two remote includes: one server answers nothing until --timeout has passed (its approved cached
+// copy is used), the other has changed and is not approved: the invocation ends with 104 (not
+// trusted), not with the timeout's status, and runs nothing
+func c20SlowAndChangedUnit() *Unit {
+	name := "slow-include-next-to-changed-unapproved-include"
+	return &Unit{Name: name, Weight: 2, Custom: func(u *Unit, dir string, deadline time.Time) *vlab.UnitResult {
+		res := &vlab.UnitResult{SigCounts: map[string]int{}, Extra: map[string]any{}}
+		srv := &c20Server{content: "v1", mode: "up"}
+		if err := srv.start(); err != nil {
+			res.HarnessErr = err.Error()
+			return res
+		}
+		defer srv.set("v1", "refusing")
+		n := 0
+		var samples []any
+		base := "http://" + srv.addr + "/inc.yml"
+		env := []string{"TASK_X_REMOTE_TASKFILES=1"}
+		for _, order := range []string{"slow-first", "changed-first"} {
+			a, b := "  slowinc: "+base+"?slow=1&ref=v1\n", "  changing: "+base+"\n"
+			if order == "changed-first" {
+				a, b = b, a
+			}
+			rootTF := "version: '3'\nincludes:\n" + a + b + "tasks:\n  local:\n    cmds: ['true']\n"
+			os.RemoveAll(dir)
+			os.MkdirAll(dir, 0o755)
+			os.WriteFile(filepath.Join(dir, "Taskfile.yml"), []byte(rootTF), 0o644)
+			srv.set("v1", "up")
+			srv.mu.Lock()
+			srv.slowOn = false
+			srv.mu.Unlock()
+			so0, se0, rc0 := RunCLI(dir, env, "", "--timeout", "5s", "--insecure", "--yes", "changing:show")
+			n++
+			hist := []string{"run-yes changing:show (both downloaded and approved)", "server-content-v2, slow include silent", "run --timeout 1s changing:show"}
+			add := func(v vlab.Violation) {
+				v.Scenario = name
+				v.Input = map[string]any{"history": hist, "root_taskfile": rootTF}
+				v.Trace = hist
+				res.SigCounts[v.Sig]++
+				if res.SigCounts[v.Sig] == 1 {
+					res.Violations = append(res.Violations, v)
+				}
+			}
+			if rc0 != 0 || !strings.Contains(so0, "REMOTE-v1") {
+				add(vlab.V("C20", "approved_content_did_not_run", "two_includes:first_download", fmt.Sprintf("status %d stdout %q stderr %q", rc0, so0, firstN(se0, 160))))
+				continue
+			}
+			srv.set("v2", "up")
+			srv.mu.Lock()
+			srv.slowOn = true
+			srv.mu.Unlock()
+			so, se, rc := RunCLI(dir, env, "", "--timeout", "1s", "--insecure", "changing:show")
+			n++
+			if len(samples) < 2 {
+				samples = append(samples, map[string]any{"order": order, "status": rc, "stdout": so, "stderr": firstN(se, 120)})
+			}
+			if strings.Contains(so, "REMOTE-") {
+				add(vlab.V("C20", "unapproved_content_ran", "two_includes:"+order, fmt.Sprintf("status %d stdout %q", rc, so)))
+			}
+			if rc != 104 {
+				add(vlab.V("C20", "declined_download_not_104", fmt.Sprintf("two_includes:%s:got%d", order, rc), fmt.Sprintf("the changed include is not approved; status %d (stderr %q), expected 104", rc, firstN(se, 200))))
+			}
+		}
+		res.Extra["samples"] = samples
+		res.Stats = vlab.Stats{Scenario: name, Execs: n, States: n, Transitions: n, Outcomes: 1, Exhaustive: true}
+		return res
+	}}
+}
+
 func c20Units(tier string) []*Unit {
-	return []*Unit{c20Unit(tier, false), c20Unit(tier, true), c20TwoURLsUnit(), c20NestedUnit(), c20SchemeUnit()}
+	return []*Unit{c20SlowAndChangedUnit(), c20Unit(tier, false), c20Unit(tier, true), c20TwoURLsUnit(), c20NestedUnit(), c20SchemeUnit()}
 }
